@@ -57,6 +57,8 @@ def plan(tier, seed):
         sh.append(['NEG', lo, hi])
     for lo, hi in chunks(82, 2):
         sh.append(['EDIT', lo, hi])
+    for lo, hi in chunks(82, 4):
+        sh.append(['S0', lo, hi])
     return sh
 
 
@@ -200,6 +202,14 @@ def run_shard(shard, tier, seed, acc):
                 if (j % 16 == 15 or j == len(forms) - 1) and lib.snapshot_kripke(Kl) != snap:
                     acc.violation('structure-modified', kcase(k, f))
                     Kl = lib.to_kripke(k)
+        return
+    if kind == 'S0':
+        forms = [f for s_ in (0, 1, 2) for f in spaces.ctls_state_by_size(s_, spaces.LEAVES2)]
+        for k in ((spaces.kripke_reps(1) + spaces.kripke_reps(2))[shard[1]:shard[2]] + spaces.kripke_reps(3, ('p',))[shard[1]::82]):
+            for S0 in ([0], [k.n - 1], list(range(k.n))):
+                Kl = lib.to_kripke(k, S0=S0)
+                for f in forms[(seed % 2)::2]:
+                    check_one(k, Kl, f, acc)
         return
     if kind == 'NEG':
         forms = [(q, g) for g in spaces.negated_path() for q in 'AE']
